@@ -18,7 +18,16 @@
 //	          secret decrypts under a configured fingerprint.
 //	cryption: handler sees the plaintext, response = base64(AES-ECB(PKCS7)).
 //
-// A panic of go-zero is recovered and reported as a violation (C18/panic/...).
+// A panic of go-zero is recovered: on a request that must pass (or on any JWT
+// request, which must be answered 401 or run the handler) it is a violation
+// (C18/panic/...); on a malformed signed/encrypted request, about which the
+// statement says nothing beyond "the handler does not run", it is counted as an
+// observation (findings/C18-side-observations.md).
+//
+// Where the statement is silent (non-strict mode, bodies that are no valid
+// encryption under the key, requests without a body, two-field changes such as
+// X-Request-Uri rewriting, status codes of refused signed requests) outcomes are
+// counted in observation counters and never judged.
 package c18
 
 import (
